@@ -14,19 +14,23 @@ Tie: coq/model/ConnRecv.v (extracted) is run on the same decrypted payloads with
 state snapshot taken from the real connection just before the packet; compared: outcome kind,
 close error code and frame type (from the ConnectionTerminated event / the CONNECTION_CLOSE on the
 wire), number of frames logged in qlog packet_received.frames; and the header decision function
-against qlog packet_dropped triggers."""
+against qlog packet_dropped triggers.
+Round s05: path games (harness/props/c05_paths.py) -- the network-path table built up by long histories of migrations and
+PATH_CHALLENGE / PATH_RESPONSE validations from up to 20 source addresses, then one more packet; no-raise oracle + table oracle;
+coq/model/ConnPaths.v (exec_paths) compared with the real table after every receive / transmit call."""
 import collections
 import json
 import os
 
 from vlib import core, corr
 from props import c05_tlsmsg
+from props import c05_paths
 
-GENERATORS = ["c05_tables", "c05_tls"]
+GENERATORS = ["c05_tables", "c05_tls", "c05_paths"]
 DEPENDS = ["Frames", "ConnRecv", "FramesP", "ConnRecvP", "C05Tables(gen)", "StreamRecv", "RangeSet", "Base", "Tok", "C05",
            "TlsParse", "TlsRecv", "TlsParseP", "TlsRecvP", "TlsSitesP", "C05Tls(gen)", "TlsDispatch(gen)", "Codec", "TlsCodec",
            "ConnDgram", "ConnDgramP", "ConnClose", "ConnCloseP", "AfterCloseP", "Header", "HeaderProofs", "Varint", "Builder",
-           "BuilderProofs", "C13Consts(gen)", "Timers", "TimersSpec", "TimersP"]
+           "BuilderProofs", "C13Consts(gen)", "Timers", "TimersSpec", "TimersP", "ConnPaths", "ConnPathsP", "C05Paths(gen)"]
 TRUSTED_BASE = [
     "extraction (ExtrOcamlBasic only; Z kept inductive) + coq/extract/driver.ml for running the model",
     "tools/gen/c05_tables.py (ast reader of __frame_handlers / enums; output is compared with the running "
@@ -41,6 +45,11 @@ TRUSTED_BASE = [
     "tools/gen/c05_tls.py + gen/TlsDispatch.v (ast readers) pin enums, dictionaries, default lists, the dispatch table and "
     "the raise-site skeleton of tls.py; harness/props/c05_tlsmsg.py reads the Context's private attributes and wraps "
     "tls.decode_public_key / tls.verify_certificate / Context._handle_reassembled_message to record oracle answers",
+    "network-path table (coq/model/ConnPaths.v): tools/gen/c05_paths.py (ast reader: MAX_NETWORK_PATHS, the eviction / promotion "
+    "indices, the source listing of every statement that touches _network_paths or a validation flag); the verdict of each packet "
+    "(epoch, probing, newest, which challenge a PATH_RESPONSE matched) is model INPUT recorded by harness/props/c05_paths.Recorder "
+    "through instance-level wrappers around receive_datagram / datagrams_to_send / connect / _payload_received and the qlog "
+    "path-frame encoders; the table oracle peeks at _network_paths (labelled, trusted harness code)",
     "frame-layer model (ConnRecv.v) calls TlsRecv.crypto_deliver below the CRYPTO handler; in the frames tie the oracle records "
     "of the TLS layer are recorded from the real connection's tls.Context (c05_tlsmsg.Recorder; the transport-parameter verdict "
     "is the QuicConnectionError of the real _alpn_handler)",
@@ -58,6 +67,8 @@ ASSUMPTIONS = [
     "receive_datagram_total quantifies over all answers",
     "receive_datagram_total: dconn_ok = tls_ok + (_initialize() has run, or server in FIRSTFLIGHT) + (no _close_event while the gate is open): "
     "Example dconn_ok_example; a client must have called connect() (API discipline, as in C09's first_op)",
+    "path_datagram_total / path_run_total: tab_ok (len(_network_paths) <= MAX_NETWORK_PATHS, no path object twice): Example tab_ok_example; "
+    "re-established by the theorems themselves from connect() / the server's first flight; network_path_update_total has no hypothesis",
     "after_close_send_total: wf_cfg (lengths >= 0), crypto_fits (max_datagram_size <= 1500, the CryptoPair's scratch buffers), close event with "
     "0 <= code, frame type < 2^62: Example close_send_hyps; holds for the tree with docs/C05-fix-10.patch (26d6ec4), refuted before (after_close_refuted)",
 ]
@@ -350,8 +361,9 @@ class Lab:
                 p.pump(subj)
                 p.run_until_idle()
             self.puppet = sim.Puppet(p, as_side=peer)
-            self.puppet.mute_real()
-            p.network.isolated.add(peer)
+            if not spec.get("live"):          # "live": the real peer stays on the network (path games: NAT rebinding)
+                self.puppet.mute_real()
+                p.network.isolated.add(peer)
             if state == "closing":
                 subj.close(error_code=0, reason_phrase="bye")
                 p.pump(subj)
@@ -359,6 +371,7 @@ class Lab:
                 self.puppet.send_frames("1rtt", [b"\x1d" + varint(0) + varint(0)])
         self.subject = self.pair.endpoint(side)
         self.peer = self.pair.endpoint(peer)
+        self.pg = None               # c05_paths.Game, created by the first path-game op
 
     # -- what the subject did ------------------------------------------------------------
     def raised(self):
@@ -392,6 +405,8 @@ class Lab:
     def apply(self, op):
         k = op[0]
         p = self.pair
+        if c05_paths.apply(self, op):      # path games: "path" / "rebind" / "peer"
+            return
         if k == "dg":
             p.deliver_now(bytes.fromhex(op[1]), self.peer_addr(), self.subject)
         elif k == "dgx":
@@ -630,6 +645,10 @@ def judge(lab):
         code = f.get("error_code")
         if f.get("transport") and code is not None and not valid_close_code(code):
             probs.append(("close with error code 0x%x outside QuicErrorCode" % code, {"rule": "close_code", "code": code}))
+    if getattr(lab, "pg", None) is not None:
+        lab.pg.check_table("at the end")
+        for rule, what in lab.pg.problems:
+            probs.append((what + " [%s %s]" % (lab.side, lab.state), {"rule": "path_table", "what": rule}))
     return probs
 
 
@@ -1974,6 +1993,15 @@ def run(ctx):
     run_ack_games(ctx, rng, ctx.n(120, 1600), stats, report)
     phase("ack games")
 
+    # 3c. network-path table games: many source addresses, validations, promotion back, then one more packet
+    pt = corr.Suite(ctx, "paths", "exec_paths", path_tie_encode, path_tie_impl, None,
+                    lambda c: c["ops"], lambda c, ops: dict(c, ops=ops),
+                    nontrivial=lambda c, out: len(out) > 12,
+                    opname=lambda o: o[0] + (":" + o[2] if o[0] == "path" else ""))
+    pt.oracle = once(oracle)
+    run_path_games(ctx, rng, ctx.n(96, 1500), stats, report, pt)
+    phase("path games")
+
     # 4. (c) hostile TLS
     run_tls(ctx, rng, stats, report)
 
@@ -1987,7 +2015,7 @@ def run(ctx):
     extra = {"volume": {k: (dict(v) if isinstance(v, collections.Counter) else v) for k, v in stats.items()},
              "packets_total": stats["datagrams"] + stats["protected_packets"] + stats["tls_messages"]}
     cov = corr.merge_coverage(
-        [fr, hd, tm, cl, dg],
+        [fr, hd, tm, cl, dg, pt],
         "frames: grammar-generated payloads (every frame type x boundary values x truncation at every byte x repetition x "
         "unknown types) in protected packets to client/server in connected / key-updated / handshake states, state snapshot "
         "taken from the real connection; header: header-grammar datagrams against the decision function; distinct = distinct "
@@ -2140,6 +2168,86 @@ def run_ack_games(ctx, rng, n, stats, report):
         probs = judge(lab)
         if probs:
             report(probs, {"spec": sp, "ops": ops}, "ack-games")
+
+
+def gen_path_cases(rng, n):
+    """path-game cases: directed histories (n validated / unvalidated / alternately validated migrations for n around
+    MAX_NETWORK_PATHS, then a packet from a never-seen address), then random ones over 2, 7, 8, 9, 12, 20 addresses; puppet worlds
+    and live worlds (the real peer rebinding)"""
+    combos = [("server", "connected"), ("client", "connected"), ("server", "keyupdated"), ("client", "keyupdated")]
+    cases = []
+    for i, (name, ops) in enumerate(c05_paths.directed_histories()):
+        # every directed history on a server; the validated ones on every subject kind
+        for side, state in (combos if name.startswith("validated") else combos[:1 + (i % 2)]):
+            cases.append({"spec": spec(side, state, 700 + (i % 3)), "ops": ops, "name": name})
+    # handshake-state subjects: Initial / Handshake-epoch packets from several addresses ("validated by the handshake")
+    for i, (side, ops) in enumerate(c05_paths.handshake_histories(rng, max(4, n // 8))):
+        cases.append({"spec": spec(side, "handshake", 720 + (i % 3)), "ops": ops, "name": "handshake/%s" % side})
+    # server first flight: the first datagram (`_network_paths = [network_path]`), then the same Initial from another address
+    lab0 = Lab(spec("server", "firstflight", 730))
+    genuine = lab0.genuine.hex()
+    cases.append({"spec": spec("server", "firstflight", 730), "ops": [["dg", genuine], ["dgx", genuine], ["dg", genuine], ["adv", 0.3]],
+                  "name": "firstflight/server"})
+    cases.append({"spec": spec("server", "firstflight", 730), "ops": [["dgx", genuine], ["dg", genuine], ["adv", 0.3]],
+                  "name": "firstflight/server"})
+    sizes = [2, 7, 8, 9, 12, 20]
+    for i in range(n):
+        side, state = combos[i % len(combos)]
+        na = sizes[(i // len(combos)) % len(sizes)]
+        live = (i % 7 == 3)
+        sp = spec(side, state, 710 + rng.randrange(4))
+        if live:
+            sp["live"] = True
+        ops = c05_paths.gen_history(rng, na, rng.randint(na, 3 * na + 4), side, live=live)
+        # one more packet from a never-seen address, then traffic from the home address, timers
+        if not live:
+            ops.append(["path", na + 1, rng.choice(["bigping", "ping", "probe", "pad"]), {"nopump": True} if rng.random() < 0.2 else {}])
+            ops.append(["path", 0, "bigping", {}])
+        else:
+            ops += [["rebind", na + 1], ["peer", "data", 0.3, 300], ["rebind", 0], ["peer", "ping", 0.3]]
+        ops.append(["adv", rng.choice([0.03, 0.5])])
+        cases.append({"spec": sp, "ops": ops, "name": "random/%s/%s/%d%s" % (side, state, na, "/live" if live else "")})
+    return cases
+
+
+def path_tie_encode(case):
+    return c05_paths.tie_observe(case, Lab)[0]
+
+
+def path_tie_impl(case):
+    return c05_paths.tie_observe(case, Lab)[1]
+
+
+def run_path_games(ctx, rng, n, stats, report, suite):
+    """(g) network-path table built up by long histories of migrations and validations, then one more packet
+    (harness/props/c05_paths.py).  Every world is judged by the no-raise oracle + the table oracle (suite.oracle, minimised
+    replay) and compared call by call with coq/model/ConnPaths.v (exec_paths)."""
+    cases = [dict(c, name=c.get("name", "corpus")) for c in corr.load_corpus("C05", "paths")] + gen_path_cases(rng, n)
+    hist = collections.Counter()
+    for c in cases:
+        nm = c["name"]
+        hist[nm if nm.split("/")[0] in ("random", "handshake", "firstflight", "corpus") else "directed"] += 1
+    stats["path_games"] = dict(hist)
+    stats["path_worlds"] = len(cases)
+    stats["worlds"] += len(cases)
+    try:
+        for i in range(0, len(cases), 100):
+            suite.run(cases[i:i + 100])
+        stats["path_tie"] = "compared"
+    except core.BuildError as e:
+        # no extracted model (the generated file / the model no longer builds): the oracle alone searches for a failing input
+        stats["path_tie"] = "model unavailable: %s" % (str(e)[:200],)
+        for c in cases:
+            _, probs = run_ops(c)
+            if probs:
+                report(probs, c, "path-games:" + c["name"])
+    pk = 0
+    reached = collections.Counter()
+    for v in c05_paths._TIE.values():
+        pk += v[2]
+    stats["path_packets_recorded"] = pk
+    stats["protected_packets"] += sum(1 for c in cases for op in c["ops"] if op[0] == "path")
+    c05_paths._TIE.clear()
 
 
 def run_retry(ctx, rng, stats, report):
